@@ -27,7 +27,7 @@ Proof.
   pose proof (Z.mod_pos_bound (Z.abs v) (2 * h) ltac:(lia)) as B.
   assert (Hq0 : 0 <= Z.abs v / (2 * h)) by (apply Z.div_pos; lia).
   remember (Z.abs v / (2 * h)) as q. remember (Z.abs v mod (2 * h)) as r.
-  rewrite Zeven_mod.
+  rewrite Zeven_mod. unfold Zeq_bool. rewrite <- Z.eqb_compare.
   destruct (Z_lt_le_dec v 0) as [Hneg|Hpos].
   - assert (En : Z.quot v (2 * h) = - q).
     { replace v with (- Z.abs v) by lia. rewrite Z.quot_opp_l by lia.
@@ -66,6 +66,12 @@ Proof.
     nia.
 Qed.
 
+Lemma quot_nonpos : forall v D, 0 < D -> v <= 0 -> Z.quot v D <= 0.
+Proof.
+  intros v D HD Hv. replace v with (- (- v)) by lia. rewrite Z.quot_opp_l by lia.
+  pose proof (Z.quot_pos (- v) D ltac:(lia) ltac:(lia)). lia.
+Qed.
+
 Lemma with_sign_mk : forall s n, (n <> 0 -> (n <? 0) = s) -> with_sign s (mk 0 n) = fofZ s n.
 Proof.
   intros s n H. destruct (Z.eq_dec n 0) as [->|Hn].
@@ -89,7 +95,10 @@ Lemma rint_guard_mk : forall k v, 0 <= k ->
 Proof.
   intros k v Hk. rewrite (flimit_mk f Hf k Hk).
   pose proof (pow2_gt0 (p - 1 + k) ltac:(destruct Hf as [[? ?] ?]; lia)) as HL.
-  rewrite mk_neg by lia. rewrite mk_fgt, mk_flt. lia.
+  rewrite mk_neg by lia. rewrite mk_fgt, mk_flt.
+  destruct (Z.abs v <? 2 ^ (p - 1 + k)) eqn:C.
+  - apply andb_true_iff. split; [apply Z.ltb_lt|apply Z.ltb_lt]; lia.
+  - apply andb_false_iff. destruct (Z_lt_le_dec v 0); [left|right]; apply Z.ltb_ge; lia.
 Qed.
 
 Lemma rint_main : forall k v, 0 <= k -> v <> 0 -> Z.abs v < 2 ^ (p - 1 + k) ->
@@ -108,10 +117,10 @@ Proof.
   set (n := Z.quot v (2 ^ k)) in *.
   rewrite (of_int_small f Hf k n Hk) by lia.
   assert (Hrho : Z.abs (v - n * 2 ^ k) <= Z.abs v).
-  { unfold n. pose proof (Z.quot_rem' v (2 ^ k)). pose proof (Z.rem_bound_abs v (2 ^ k) ltac:(lia)).
-    destruct (Z_lt_le_dec v 0).
-    - pose proof (quot_neg_ge v (2 ^ k) HD ltac:(lia)). lia.
-    - pose proof (quot_pos_le v (2 ^ k) HD ltac:(lia)). lia. }
+  { unfold n. pose proof (Z.quot_rem' v (2 ^ k)) as Eqr.
+    replace (v - Z.quot v (2 ^ k) * 2 ^ k) with (Z.rem v (2 ^ k)) by lia.
+    rewrite <- Z.rem_abs by lia. rewrite (Z.abs_eq (2 ^ k)) by lia.
+    rewrite Z.rem_mod_nonneg by lia. apply Z.mod_le; lia. }
   rewrite mk_sub' by (apply Hlow; exact Hrho).
   assert (Hvalid : forall n', Z.abs n' <= 2 ^ (p - 1) -> valid f (mk 0 n') = true)
     by (intros n' Hn'; apply (small_rep f Hf); exact Hn').
@@ -149,15 +158,15 @@ Proof.
       * pose proof (quot_neg_ge v (2 ^ k) HD ltac:(lia)). lia.
       * assert (0 <= Z.quot v (2 ^ k)) by (apply Z.quot_pos; lia). lia.
     + destruct ((rho <? - 2 ^ (k - 1)) || (rho =? - 2 ^ (k - 1)) && odd) eqn:C2.
-      * rewrite mk_sub by (try lia; replace (n * 2 ^ k - 2 ^ k) with ((n - 1) * 2 ^ k) by lia;
-                           apply rep_int; [exact Hf|exact Hk|lia]).
+      * rewrite mk_sub; [|lia|replace (n * 2 ^ k - 2 ^ k) with ((n - 1) * 2 ^ k) by lia;
+                                 apply rep_int; [exact Hf|exact Hk|lia]].
         replace (n * 2 ^ k - 2 ^ k) with ((n - 1) * 2 ^ k) by lia. rewrite mk_int by lia.
         rewrite copysign_ct_eq_rt; [|exact Hs|apply Hvalid; lia|exact Hvx].
         unfold rt_copysign. rewrite mk_sign by exact Hv.
         replace (n + -1) with (n - 1) by lia.
         apply with_sign_mk. intros Hnz. unfold rho in C2. unfold n in *.
         destruct (Z_lt_le_dec v 0).
-        -- assert (Z.quot v (2 ^ k) <= 0) by (apply Z.quot_le_upper_bound_neg || (pose proof (Z.quot_neg v (2 ^ k)); nia)). lia.
+        -- pose proof (quot_nonpos v (2 ^ k) HD ltac:(lia)). lia.
         -- pose proof (quot_pos_le v (2 ^ k) HD ltac:(lia)). lia.
       * rewrite mk_int by lia.
         rewrite copysign_ct_eq_rt; [|exact Hs|apply Hvalid; lia|exact Hvx].
@@ -169,3 +178,94 @@ Proof.
         -- assert (0 <= Z.quot v (2 ^ k)) by (apply Z.quot_pos; lia). lia.
 Qed.
 End Rint.
+
+(** * the whole function *)
+Lemma rt_rint_int_exp : forall x s m e, rt_rint x = FFin s m e -> 0 <= e.
+Proof.
+  intros x s m e H. unfold rt_rint, round_with in H. destruct x as [a|a|a|a mx ex]; try discriminate H.
+  destruct (0 <=? ex) eqn:He.
+  - cbn [fnorm] in H. destruct (pnorm mx ex) as [m' e'] eqn:Hn.
+    pose proof (pnorm_spec _ _ _ _ Hn) as (_ & Hle & _). inversion H; subst. lia.
+  - unfold fofZ in H. destruct (_ =? 0); [discriminate H|]. cbn [fnorm] in H.
+    destruct (pnorm _ 0) as [m' e'] eqn:Hn.
+    pose proof (pnorm_spec _ _ _ _ Hn) as (_ & Hle & _). inversion H; subst. lia.
+Qed.
+
+Section RintTop.
+Variable f : fmt.
+Hypothesis Hf : fmt_ok f.
+Hypothesis Hs : std_fmt f.
+Local Notation p := (prec f).
+
+Lemma rint_zero : forall s, ct_rint f (FZero s) = Ok (FZero s).
+Proof.
+  intros s. unfold ct_rint. cbv zeta.
+  assert (G : fgt (FZero s) (fneg (flimit f)) && flt (FZero s) (flimit f) = true) by (destruct s; reflexivity).
+  rewrite G. cbn [negb].
+  change (to_llint (FZero s)) with (Ok (A:=Z) 0). cbn [rbind]. f_equal.
+  rewrite of_int_0.
+  assert (Efrac : fsub f (FZero s) (FZero false) = FZero s) by (destruct s; reflexivity).
+  rewrite Efrac.
+  change (Z.rem 0 2 =? 0) with true. cbn [negb].
+  assert (C : (fgt (FZero s) fhalf || feq (FZero s) fhalf && false = false) /\
+              (flt (FZero s) (fneg fhalf) || feq (FZero s) (fneg fhalf) && false = false))
+    by (destruct s; split; reflexivity).
+  destruct C as [-> ->].
+  rewrite copysign_ct_eq_rt; [|exact Hs|reflexivity|reflexivity].
+  reflexivity.
+Qed.
+
+Lemma rint_inf : forall s, ct_rint f (FInf s) = Ok (FInf s).
+Proof. intros [|]; reflexivity. Qed.
+Lemma rint_nan : forall s, ct_rint f (FNaN s) = Ok (FNaN s).
+Proof. intros [|]; reflexivity. Qed.
+
+Lemma rint_large : forall k v, 0 <= k -> 2 ^ (p - 1 + k) <= Z.abs v -> ct_rint f (mk k v) = Ok (mk k v).
+Proof.
+  intros k v Hk Hge. unfold ct_rint. cbv zeta. rewrite (rint_guard_mk f Hf) by exact Hk.
+  replace (Z.abs v <? 2 ^ (p - 1 + k)) with false by lia. reflexivity.
+Qed.
+
+Theorem rint_ct_eq_rt : forall x, valid f x = true ->
+  exists y, ct_rint f x = Ok y /\ up_to_nan_sign y (rt_rint x).
+Proof.
+  intros x Hv. destruct x as [s|s|s|s m e].
+  - exists (FZero s). split; [apply rint_zero|left; reflexivity].
+  - exists (FInf s). split; [apply rint_inf|left; reflexivity].
+  - exists (FNaN s). split; [apply rint_nan|right; split; reflexivity].
+  - exists (rt_rint (FFin s m e)). split; [|left; reflexivity].
+    destruct (fin_as_mk f s m e Hv) as (E & Hv0 & Hsg & Hrep).
+    unfold rt_rint. destruct (Z_lt_le_dec e 0) as [He|He].
+    + destruct (scaled_frac f s m e Hf Hv He) as (Hk & Hsc & Ho & Hlt).
+      rewrite <- (glue_frac f Hf zround_even s m e Hv He). rewrite E.
+      rewrite (rint_main f Hf Hs); [|unfold scale_of; lia|exact Hv0|exact Hlt|exact Hrep|].
+      * f_equal. f_equal. replace (1 <=? scale_of e) with true by lia.
+        rewrite rint_arith; [|apply pow2_gt0; lia|exact Hv0].
+        f_equal. replace (scale_of e) with ((scale_of e - 1) + 1) at 2 by lia.
+        symmetry. apply pow2_succ. lia.
+      * intros r Hr. apply (rep_below f (scale_of e) (scaled s m e)); assumption.
+    + rewrite (round_with_int f) by assumption. rewrite E.
+      rewrite (scale_int e He) in *.
+      destruct (Z_lt_le_dec (Z.abs (scaled s m e)) (2 ^ (p - 1 + 0))) as [Hlt|Hge].
+      * rewrite (rint_main f Hf Hs); [|lia|exact Hv0|exact Hlt|exact Hrep|].
+        -- replace (1 <=? 0) with false by lia. f_equal. apply fofZ_nz. exact Hv0.
+        -- intros r Hr. apply (small_rep f Hf). replace (p - 1 + 0) with (p - 1) in Hlt by lia. lia.
+      * apply rint_large; [lia|exact Hge].
+Qed.
+
+(* lrint / llrint: whenever the specification is defined (the rounded value fits the 64-bit result)
+   the fallback returns that value and its conversion is in range *)
+Theorem lrint_ct_eq_rt : forall x n, valid f x = true -> rt_lrint x = Some n -> ct_lrint f x = Ok n.
+Proof.
+  intros x n Hv Hrt. destruct (rint_ct_eq_rt x Hv) as (y & Hy & Hyn).
+  unfold ct_lrint. rewrite Hy. cbn [rbind]. unfold rt_lrint in Hrt.
+  destruct (rt_rint x) as [a|a|a|a m e] eqn:R; try discriminate Hrt.
+  - destruct Hyn as [->|[_ Hn]]; [|discriminate Hn]. injection Hrt as <-. reflexivity.
+  - destruct Hyn as [->|[_ Hn]]; [|discriminate Hn].
+    pose proof (rt_rint_int_exp x a m e R) as He.
+    unfold to_sint. cbn [ztrunc]. replace (0 <=? e) with true by lia.
+    assert (En : (if a then - (Zpos m * 2 ^ e) else Zpos m * 2 ^ e) = (if a then Zneg m else Zpos m) * 2 ^ e).
+    { destruct a; [|reflexivity]. change (Zneg m) with (- Zpos m). lia. }
+    rewrite En. destruct (in_s 64 _); [|discriminate Hrt]. injection Hrt as <-. reflexivity.
+Qed.
+End RintTop.
